@@ -43,10 +43,11 @@ def readCap := 5
 def closeCap := 10
 
 def step (s : St) : Act → Option St
+  -- `packets` of the model holds the datagrams in the channel *and* the one the reader goroutine is blocked on while the channel
+  -- (capacity `packetsCap`) is full: the reader reports an arrival before it sends, and a datagram waiting in the reader's hand
+  -- is, for the loop, a datagram waiting in the queue — so the model's queue is unbounded
   | .arrive a =>
-    if s.packets.length < packetsCap then
-      some { s with next := s.next + 1, src := upd s.src s.next a, packets := s.packets ++ [s.next] }
-    else none
+    some { s with next := s.next + 1, src := upd s.src s.next a, packets := s.packets ++ [s.next] }
   | .loopPkt =>
     match s.packets with
     | [] => none
